@@ -115,6 +115,53 @@ func syscStream(g *hx.Gen, id int) hx.Case {
 		ops = append(ops, mk(false), r, r)
 		return syscRun("sysc", id, force, ops)
 	}
+	if g.Chance(6) {
+		// directed history: the same request with a method other than GET/HEAD twice, on a resource whose
+		// answer would be storable: both must reach the origin (C10), a GET in between or afterwards too
+		p := paths[0]
+		version++
+		st := []int{200, 200, 404, 301}[g.Intn(4)]
+		o := scOp{kind: 'O', path: p, status: st, rerr: -1, chunk: g.Chance(30),
+			hdr: [][2]string{{"Cache-Control", "max-age=60"}, {"Content-Type", "text/plain"}}}
+		if st == 301 {
+			o.hdr = append(o.hdr, [2]string{"Location", "/elsewhere"})
+		}
+		o.body = []byte("body-" + p + "-v" + hx.I(version) + "-" + g.Str("abcdef", 16))
+		m := g.Pick([]string{"POST", "PUT", "PATCH", "DELETE", "OPTIONS", "PROPFIND", "TRACE"})
+		rm := scOp{kind: 'R', method: m, path: p}
+		rg := scOp{kind: 'R', method: "GET", path: p}
+		ops := []scOp{o}
+		if g.Bool() {
+			ops = append(ops, rg)
+		}
+		ops = append(ops, rm, rm, rg, rm)
+		return syscRun("sysc", id, force, ops)
+	}
+	if g.Chance(10) {
+		// directed history: the client of a FILLING request goes away mid-body (the fetch is aborted); the
+		// next requests must be answered normally, nobody is served the fragment (C13)
+		p := paths[0]
+		version++
+		o := scOp{kind: 'O', path: p, status: 200, rerr: -1, chunk: g.Chance(40),
+			hdr: [][2]string{{"Cache-Control", "max-age=60"}, {"Content-Type", "text/plain"}}}
+		o.body = []byte("body-" + p + "-v" + hx.I(version) + "-" + g.Str("abcdef", 40))
+		r := scOp{kind: 'R', method: "GET", path: p}
+		ops := []scOp{o}
+		if g.Chance(30) {
+			// a stale entry first: the aborted fetch is a revalidation answered 200
+			o.hdr[0][1] = "max-age=5"
+			ops = []scOp{o, r, {kind: 'T', dt: 6 + g.Intn(30)}}
+			version++
+			o2 := o
+			o2.body = []byte("body-" + p + "-v" + hx.I(version) + "-" + g.Str("abcdef", 40))
+			ops = append(ops, o2)
+		}
+		ops = append(ops, scOp{kind: 'A', method: "GET", path: p}, r, r)
+		if g.Bool() {
+			ops = append(ops, scOp{kind: 'T', dt: 1}, r)
+		}
+		return syscRun("sysc", id, force, ops)
+	}
 	if g.Chance(12) {
 		// directed history: an entry with a validator goes stale and is revalidated by a 304 (which
 		// may carry Content-Length: 0); the revalidating client and every later hit get the stored body
@@ -143,8 +190,9 @@ func syscStream(g *hx.Gen, id int) hx.Case {
 			if g.Chance(10) {
 				r.method = "HEAD"
 			}
-			if g.Chance(5) {
-				r.method = "POST"
+			if g.Chance(8) {
+				// methods that are never answered from the cache
+				r.method = g.Pick([]string{"POST", "POST", "PUT", "PATCH", "DELETE", "OPTIONS", "PROPFIND"})
 			}
 			for k := g.Intn(3); k > 0; k-- {
 				h := scReqHeaders[g.Intn(len(scReqHeaders))]
@@ -202,8 +250,8 @@ func syscRun(stream string, id int, force int, ops []scOp) hx.Case {
 				in = append(in, hx.X(kv[0]), hx.X(kv[1]))
 			}
 			in = append(in, hx.X(string(o.body)), hx.B(o.chunk), hx.I(o.rerr), hx.B(o.cond), hx.B(o.cl0))
-		case 'R':
-			in = append(in, "R", hx.X(o.method), hx.X(o.path), hx.I(len(o.hdr)))
+		case 'R', 'A':
+			in = append(in, string(o.kind), hx.X(o.method), hx.X(o.path), hx.I(len(o.hdr)))
 			for _, kv := range o.hdr {
 				in = append(in, hx.X(kv[0]), hx.X(kv[1]))
 			}
@@ -257,9 +305,24 @@ func syscRun(stream string, id int, force int, ops []scOp) hx.Case {
 			case 'O':
 				cur[o.path] = &sysx.OriginResp{Status: o.status, Header: o.hdr, Body: o.body, Chunked: o.chunk, ReadErrAt: o.rerr}
 				curOp[o.path] = o
-			case 'R':
+			case 'R', 'A':
 				req := SysReq{Method: o.method, Target: "/c/" + o.path, Host: "h1.test", Header: o.hdr}
-				v := w.Do(req.Raw(), o.method == "HEAD")
+				var v sysx.ClientView
+				if o.kind == 'A' {
+					// the client goes away after half of the body: the origin's answer stops there and its
+					// body read ends with the request context's error
+					if c := cur[o.path]; c != nil && len(c.Body) >= 8 {
+						cp := *c
+						cp.CancelAt = len(c.Body) / 2
+						cur[o.path] = &cp
+						v = w.DoAbort(req.Raw(), 0)
+						cur[o.path] = c
+					} else {
+						v = w.DoAbort(req.Raw(), 0)
+					}
+				} else {
+					v = w.Do(req.Raw(), o.method == "HEAD")
+				}
 				w.Quiesce()
 				cs := w.Perf.Take()
 				hs := sysx.SortedHeaderPairs(v.Header, map[string]bool{"date": true, "connection": true})
